@@ -960,14 +960,18 @@ Qed.
 
 Lemma cl5_ok s : Inv s -> cl5 (limit s) (map atrip (acts s)) = true.
 Proof.
-  intros [C [_ HW]]. unfold cl5. destruct (Z.ltb_spec 0 (limit s)) as [Hpos|]; [|reflexivity].
+  intros [C [_ HW]]. unfold cl5.
   rewrite forallb_map'. apply forallb_forall. intros x Hx. destruct (In_nth_error _ _ Hx) as [a Ha].
   specialize (HW a x Ha). unfold atrip, t1, t2, t3. destruct (pc x) as [n|q r|n0|n0 ch|n0 r| |ch q r|ch|r]; cbn [fst snd]; try reflexivity.
   - cbn [N.eqb Pos.eqb orb]. destruct (N.ltb_spec 0 (N.of_nat q)) as [Hq|]; [|reflexivity].
-    apply Z.eqb_eq. rewrite nat_N_Z. cbn [apc_ok] in HW. apply HW. lia.
+    cbn [apc_ok] in HW. destruct (HW ltac:(lia)) as [Hpos Hr]. apply andb_true_iff. split.
+    + now apply Z.ltb_lt.
+    + apply Z.eqb_eq. rewrite nat_N_Z. exact Hr.
   - destruct r; reflexivity.
   - cbn [N.eqb Pos.eqb orb]. destruct (N.ltb_spec 0 (N.of_nat q)) as [Hq|]; [|reflexivity].
-    apply Z.eqb_eq. rewrite nat_N_Z. cbn [apc_ok] in HW. apply HW. lia.
+    cbn [apc_ok] in HW. destruct (HW ltac:(lia)) as [Hpos Hr]. apply andb_true_iff. split.
+    + now apply Z.ltb_lt.
+    + apply Z.eqb_eq. rewrite nat_N_Z. exact Hr.
   - destruct r; reflexivity.
 Qed.
 
